@@ -3,6 +3,7 @@ package c09
 
 import (
 	"bytes"
+	"io"
 
 	snes "github.com/alttpo/snes"
 
@@ -107,5 +108,72 @@ func RoundTrip(size int) {
 	err = r.WriteHeader()
 	vp.Assert("write-back-succeeds", err == nil)
 	vp.Assert("read-then-write-leaves-image-unchanged", vp.BytesEqual(r.Contents, shadow))
+	vp.Reach("end")
+}
+
+func versionOf(c []byte) int {
+	if c[hdr+0x2A] == 0x33 {
+		return 3
+	}
+	if c[hdr+0x10+20] == 0 {
+		return 2
+	}
+	return 1
+}
+
+// TwoRounds: one ROM object used over time. After a first read/write-back the 80 header bytes of
+// the image are replaced by other arbitrary bytes (as a patcher does), the header is read and written
+// back again: the second round, too, leaves the image unchanged and reports the second header.
+func TwoRounds(size int) {
+	contents := vp.Bytes("rom", size)
+	shadow := vp.Bytes("rom", size)
+	r, err := snes.NewROM("x", contents)
+	vp.Assert("header-parses", err == nil && r != nil)
+	if err != nil {
+		return
+	}
+	vp.Assert("write-back-succeeds", r.WriteHeader() == nil)
+	vp.Assert("read-then-write-leaves-image-unchanged", vp.BytesEqual(r.Contents, shadow))
+	h2 := vp.Bytes("hdr2", 80)
+	copy(r.Contents[hdr:hdr+80], h2)
+	copy(shadow[hdr:hdr+80], h2)
+	vp.Assert("header-parses", r.ReadHeader() == nil)
+	vp.Assert("version-rule", r.Header.HeaderVersion() == versionOf(shadow))
+	vp.Assert("Title@FFC0", r.Header.Title[0] == shadow[hdr+0x10] && r.Header.Title[20] == shadow[hdr+0x10+20])
+	vp.Assert("CheckSum@FFDE", r.Header.CheckSum == le16(shadow, 0x2E))
+	vp.Assert("write-back-succeeds", r.WriteHeader() == nil)
+	vp.Assert("read-then-write-leaves-image-unchanged", vp.BytesEqual(r.Contents, shadow))
+	// and once more without any change in between
+	vp.Assert("header-parses", r.ReadHeader() == nil)
+	vp.Assert("write-back-succeeds", r.WriteHeader() == nil)
+	vp.Assert("read-then-write-leaves-image-unchanged", vp.BytesEqual(r.Contents, shadow))
+	vp.Reach("end")
+}
+
+// Direct: Header.ReadHeader called by a user with a reader over the whole image positioned at the
+// header (the method's documented use: "parses a ROM header starting from FFB0"): it decodes the
+// 80 bytes at the reader's position and consumes exactly those.
+func Direct(size int) {
+	contents := vp.Bytes("rom", size)
+	shadow := vp.Bytes("rom", size)
+	rd := bytes.NewReader(contents)
+	_, serr := rd.Seek(hdr, io.SeekStart)
+	vp.Assert("seek-succeeds", serr == nil)
+	var h snes.Header
+	err := h.ReadHeader(rd)
+	vp.Assert("header-parses", err == nil)
+	if err != nil {
+		return
+	}
+	c := shadow
+	vp.Assert("reader-consumed-exactly-the-80-header-bytes", rd.Len() == size-hdr-80)
+	vp.Assert("version-rule", h.HeaderVersion() == versionOf(c))
+	ext := versionOf(c) != 1
+	vp.Assert("MakerCode@FFB0", (ext && h.MakerCode == le16(c, 0x00)) || (!ext && h.MakerCode == 0))
+	vp.Assert("Title@FFC0", h.Title[0] == c[hdr+0x10] && h.Title[20] == c[hdr+0x10+20])
+	vp.Assert("MapMode@FFD5", h.MapMode == c[hdr+0x25])
+	vp.Assert("CheckSum@FFDE", h.CheckSum == le16(c, 0x2E))
+	vp.Assert("NativeVectors.NMI@FFEA", h.NativeVectors.NMI == le16(c, 0x3A))
+	vp.Assert("EmulatedVectors.IRQBRK@FFFE", h.EmulatedVectors.IRQBRK == le16(c, 0x4E))
 	vp.Reach("end")
 }
